@@ -18,7 +18,8 @@ def parseCode (v : Json) : Except String String := do
   let a ← v.getArr?
   match a.toList with
   | [c, s] => pure s!"{← c.getStr?}|{← s.getStr?}"
-  | _ => throw "code must be [value, scheme]"
+  | [c, s, ver] => pure s!"{← c.getStr?}|{← s.getStr?}|{← ver.getStr?}"
+  | _ => throw "code must be [value, scheme] or [value, scheme, version]"
 
 def optCode (j : Json) (k : String) : Except String (Option String) :=
   match j.getObjVal? k with
